@@ -5,7 +5,7 @@ import ast
 from fractions import Fraction
 
 from ..tyob import *  # noqa
-from ..tyob import analyse, expect, item, unmodelled_in, against_const
+from ..tyob import sibling_defaults, analyse, expect, item, unmodelled_in, against_const
 from ..poly import Normaliser, Poly, straightline_env
 from ..program import norm_stmt
 
@@ -26,6 +26,7 @@ def run(chk):
                          "is np.take(peak_indices, .); the excursion ends on a non-strict product `<= 0` with the running reference")
     zero_crossing_rules(chk)
     switched_rules(chk)
+    sibling_defaults(chk, "R-ZC-STRICT", [ZC], neutral={"keep_adj_zeros": False, "tol": 0.0}, label="get_zero_crossings_array_indices")
     chk.floor("R-ZC-STRICT", 8)
     chk.floor("R-TOL-SUB", 3)
     chk.floor("R-SW-COVER", 3)
